@@ -345,15 +345,41 @@ def c_vk(l):
     return clist(["(%s, %s)" % (cZ(x[0]), c_keys(x[1:])) for x in (l or [])])
 
 
+def c_txp(x):
+    return "(TxP %s %s %s %s)" % (cnatl(x["t"]), c_rows(x["rows"]), c_vk(x["lg"]), c_vk(x["sg"]))
+
+
+def c_nz(l):
+    return clist(["(%s, %s)" % (cN(x[0]), cZ(x[1])) for x in (l or [])])
+
+
+def c_zn(l):
+    return clist(["(%s, %s)" % (cZ(x[0]), cN(x[1])) for x in (l or [])])
+
+
 def c_probe(p):
-    txs = clist(["(TxP %s %s %s %s)" % (cnatl(x["t"]), c_rows(x["rows"]), c_vk(x["lg"]), c_vk(x["sg"]))
-                 for x in (p.get("txs") or [])])
-    return "(PR %s %s %s %s %s %s %s %s %s %s)" % (
-        c_rows(p["rows"]), c_vk(p["lf"]),
-        clist(["(%s, %s)" % (cN(x[0]), cZ(x[1])) for x in (p["lr"] or [])]), cnatl(p["ld"]),
-        clist(["(%s, %s)" % (cZ(x[0]), cN(x[1])) for x in (p["se"] or [])]),
-        clist(["(%s, %s)" % (cN(x[0]), cZ(x[1])) for x in (p["sr"] or [])]), cnatl(p["sd"]),
-        c_vk(p["lg"]), c_vk(p["sg"]), txs)
+    return "(PR %s %s %s %s %s %s %s %s)" % (
+        c_rows(p["rows"]), c_vk(p["lf"]), c_nz(p["lr"]), cnatl(p["ld"]),
+        c_zn(p["se"]), c_nz(p["sr"]), cnatl(p["sd"]), clist([c_txp(x) for x in (p.get("txs") or [])]))
+
+
+def c_pdelta(prev, p):
+    """difference of probe p to the previous probe (None when nothing changed)"""
+    if prev == p:
+        return "None"
+
+    def opt(key, pr):
+        return "None" if (prev[key] or []) == (p[key] or []) else "(Some %s)" % pr(p[key])
+    old = {x["t"]: x for x in (prev.get("txs") or [])}
+    txs = []
+    for x in (p.get("txs") or []):
+        if old.get(x["t"]) == x:
+            txs.append("(%s, None)" % cnatl(x["t"]))
+        else:
+            txs.append("(%s, Some %s)" % (cnatl(x["t"]), c_txp(x)))
+    return "(Some (PD %s %s %s %s %s %s %s %s))" % (
+        opt("rows", c_rows), opt("lf", c_vk), opt("lr", c_nz), cnatl(p["ld"]),
+        opt("se", c_zn), opt("sr", c_nz), cnatl(p["sd"]), clist(txs))
 
 
 def c_rq(q):
@@ -363,17 +389,18 @@ def c_rq(q):
                                               cbool(q["x"]), cN(q["xe"]))
 
 
-def c_iout(x):
-    g = "None" if x.get("g") is None else "(Some %s)" % c_keys(x["g"])
-    return "(IOut %s %s %s %s %s)" % (cN(x["e"]), c_rq(x.get("qi")), c_rq(x.get("qs")), g, c_probe(x["p"]))
-
-
 def to_coq(case, r):
-    steps = clist(["(%s, %s)" % (c_op(o), c_iout(x)) for o, x in zip(case["ops"], r["outs"])])
+    steps = []
+    prev = r["p0"]
+    for o, x in zip(case["ops"], r["outs"]):
+        g = "None" if x.get("g") is None else "(Some %s)" % c_keys(x["g"])
+        steps.append("(%s, IOutD %s %s %s %s %s)" % (c_op(o), cN(x["e"]), c_rq(x.get("qi")), c_rq(x.get("qs")), g,
+                                                     c_pdelta(prev, x["p"])))
+        prev = x["p"]
     return "(CaseT %s %s %s %s %s %s)" % (
         cbool(case["mode"] == 1), c_rows(case["seed"]),
         clist([cZ(v) for v in case["avals"]]), clist([cZ(v) for v in case["bvals"]]),
-        c_probe(r["p0"]), steps)
+        c_probe(r["p0"]), clist(steps))
 
 
 def harness_violation(case, r):
